@@ -407,7 +407,38 @@ func factsOnPath(cond ssa.Value, truth bool, path []*ssa.BasicBlock, depth int) 
 		}
 		return Facts(cond, truth), true
 	}
-	return resolveFactOperands(Facts(cond, truth), path), true
+	fs := resolveFactOperands(Facts(cond, truth), path)
+	// a comparison of two constants (after resolving phis along the path) that does not hold
+	// rules the edge out on this path
+	for _, f := range fs {
+		if f.Op == token.ILLEGAL {
+			continue
+		}
+		kx, okx := ConstInt(f.X)
+		ky, oky := ConstInt(f.Y)
+		if !okx || !oky {
+			continue
+		}
+		holds := true
+		switch f.Op {
+		case token.EQL:
+			holds = kx == ky
+		case token.NEQ:
+			holds = kx != ky
+		case token.LSS:
+			holds = kx < ky
+		case token.LEQ:
+			holds = kx <= ky
+		case token.GTR:
+			holds = kx > ky
+		case token.GEQ:
+			holds = kx >= ky
+		}
+		if !holds {
+			return nil, false
+		}
+	}
+	return fs, true
 }
 
 // resolveFactOperands adds, for every comparison whose operand is a phi entered along the
